@@ -2,7 +2,8 @@
 // config type with alias tags at any depth, up to three aliased targets are
 // driven through all 4^k neither/primary/alias/both patterns via the env
 // source (os.Setenv, serialised), the std-flag and pflag sources (explicit
-// argument lists, private flag sets) and a JSON decoder wrapped as ez does.
+// argument lists, private flag sets), a JSON decoder wrapped as ez does, and
+// (static types) a JSON config file through the real ez entry point.
 package main
 
 import (
@@ -33,14 +34,14 @@ import (
 type input struct {
 	K     string `json:"k"`
 	State uint64 `json:"state"` // PRNG state: type, targets and the values of the other fields
-	Src   int    `json:"src"`   // 0 env, 1 flag, 2 pflag, 3 json via ez's decoder wrap
+	Src   int    `json:"src"`   // 0 env, 1 flag, 2 pflag, 3 json via ez's decoder wrap, 4 a static type through the real ez entry point
 	Pat   int    `json:"pat"`   // base-4 digits: pattern of target i (0 neither, 1 primary, 2 alias, 3 both)
 }
 
 const aliasSuffix = "_alias9wr876rw3"
 
-var srcNames = []string{"env", "flag", "pflag", "json"}
-var families = [][]string{{"dials", "dialsenv"}, {"dials", "dialsflag"}, {"dials", "dialspflag"}, {"dials"}}
+var srcNames = []string{"env", "flag", "pflag", "json", "ez"}
+var families = [][]string{{"dials", "dialsenv"}, {"dials", "dialsflag"}, {"dials", "dialspflag"}, {"dials"}, {"dials"}}
 
 // ---- type generation: scalar leaves every source can express ----
 
@@ -63,6 +64,8 @@ type gen struct {
 	targets []target
 	leaves  [][]string // paths of all leaves (for the independent fields)
 	leafT   []reflect.Type
+	ez      ezType // src 4: the static type and its ez entry point
+	ezo     ezOpts
 }
 
 func (g *gen) name() string { g.next++; return fmt.Sprintf("F%d", g.next) }
@@ -256,7 +259,15 @@ func safeValue(f func() (reflect.Value, error)) (o xf.Out) {
 func build(state uint64, src int) (*gen, reflect.Type, *coqfmt.Rng) {
 	r := coqfmt.NewRng(state)
 	g := &gen{r: r, src: src}
-	t0 := g.strct(0, nil, false, true)
+	var t0 reflect.Type
+	if src == 4 {
+		g.ez = ezPalette[r.Intn(len(ezPalette))]
+		g.ezo = drawEzOpts(r)
+		t0 = g.ez.T
+		g.walk(t0, nil, false)
+	} else {
+		t0 = g.strct(0, nil, false, true)
+	}
 	kmax := 1 + r.Intn(3)
 	for len(g.targets) > kmax {
 		i := r.Intn(len(g.targets))
@@ -313,8 +324,12 @@ func run(raw json.RawMessage) driver.Result {
 		chain = xf.FlagChain()
 	case 2:
 		chain = xf.PflagChain()
-	default:
+	case 3:
 		chain = xf.EzChain([]int{-1, 2, 4}[r.Intn(3)])
+		chain2 = xf.JSONChain()
+	default:
+		// what ez has to assemble for these Params: the alias mangler ALWAYS
+		chain = xf.EzChainOpts(g.ezo.Enc, !g.ezo.DisableSetSlice)
 		chain2 = xf.JSONChain()
 	}
 	tf := transform.NewTransformer(pt, xf.Manglers(chain)...)
@@ -454,6 +469,34 @@ func run(raw json.RawMessage) driver.Result {
 		res = safeValue(func() (reflect.Value, error) {
 			return dec.Decode(strings.NewReader(string(doc)), dials.NewType(pt))
 		})
+		if in.Src == 4 {
+			// the same document as a config FILE through the real ez entry point
+			// with these Params: same outcome as the alias-wrapped decoder above
+			tags = append(tags, fmt.Sprintf("ez-disable-setslice-%v", g.ezo.DisableSetSlice), fmt.Sprintf("ez-encoder-%d", g.ezo.Enc))
+			ezRes := safeValue(func() (reflect.Value, error) { return viaEz(g.ez, g.ezo, doc) })
+			switch {
+			case ezRes.Panicked:
+				direct = append(direct, "ez panicked: "+ezRes.PanicMsg)
+			case res.Class() == "err" && ezRes.Err == nil:
+				direct = append(direct, "ez: the alias-wrapped decoder rejects this file ("+res.Err.Error()+") but ez accepts it")
+			case res.Class() == "ok" && ezRes.Err != nil:
+				direct = append(direct, "ez: unexpected error "+ezRes.Err.Error())
+			case res.Class() == "ok":
+				if d := sameAsView(res.V, ezRes.V, "cfg"); d != "" {
+					direct = append(direct, "ez's view differs from the alias-wrapped decoder's result: "+d)
+				}
+			case res.Class() == "err":
+				named := false
+				for _, b := range both {
+					if strings.Contains(ezRes.Err.Error(), strconv.Quote(b)) {
+						named = true
+					}
+				}
+				if len(both) > 0 && !named {
+					direct = append(direct, "ez: error does not name the field: "+ezRes.Err.Error())
+				}
+			}
+		}
 	}
 
 	// ---- direct oracle: the property on the implementation's result
@@ -566,7 +609,7 @@ func gen_(r *coqfmt.Rng, n int, tier string) []json.RawMessage {
 	var out []json.RawMessage
 	for len(out) < n {
 		state := r.U64()
-		src := r.Intn(4)
+		src := r.Intn(5)
 		// determine k for this type
 		g, _, _ := build(state, src)
 		k := len(g.targets)
@@ -588,7 +631,7 @@ func gen_(r *coqfmt.Rng, n int, tier string) []json.RawMessage {
 func main() {
 	driver.Main(driver.Engine{
 		Prop: "C14", CoqImport: "Dials.Check.C14Check", CoqRun: "run_cases",
-		Rule: "random config types (scalar leaves of 11 kinds incl. durations and named scalars, nested value/pointer structs to depth 3, embedded structs) with dialsalias tags; every supplied value is the Go zero value of its type (false, 0, \"\", 0s) with probability 1/3 (plus dialsenvalias / dialsflagalias / dialspflagalias on leaves, with and without a primary tag, dialsdesc) on random leaf and struct-typed fields at any depth; up to 3 aliased targets per type, ALL 4^k neither/primary/alias/both patterns; other leaves set independently with probability 1/3; each type through one of: env source (with and without prefix), std flag source, pflag source, JSON decoder wrapped with ez's alias/reformat/set-slice manglers; non-trivial: at least one target and a pattern other than all-neither; distinct = distinct (type state, source, pattern)",
+		Rule: "random config types (scalar leaves of 11 kinds incl. durations and named scalars, nested value/pointer structs to depth 3, embedded structs) with dialsalias tags; every supplied value is the Go zero value of its type (false, 0, \"\", 0s) with probability 1/3 (plus dialsenvalias / dialsflagalias / dialspflagalias on leaves, with and without a primary tag, dialsdesc) on random leaf and struct-typed fields at any depth; up to 3 aliased targets per type, ALL 4^k neither/primary/alias/both patterns; other leaves set independently with probability 1/3; each type through one of: env source (with and without prefix), std flag source, pflag source, JSON decoder wrapped with ez's alias/reformat/set-slice manglers, or (four static config types with aliases on leaves, struct-typed, pointer and embedded fields) a JSON config FILE read through the real ez.JSONConfigEnvFlag with Params drawn from DisableAutoSetToSlice x FileFieldNameEncoder in {nil, nil, lower_snake, kebab}, its view compared with the alias-wrapped decoder's result; non-trivial: at least one target and a pattern other than all-neither; distinct = distinct (type state, source, pattern)",
 		Gen:  gen_, Run: run,
 	})
 }
